@@ -16,8 +16,40 @@ import (
 
 // allowedFor returns the exclusion formula "location (k[,j]) is named by the
 // modifies clause" for a component, and whether the whole component is free.
+// sharedComp: components that hold lock-protected shared state (protected fields of types
+// with a lock declaration, and the contents of maps): a function that takes locks gives no
+// frame guarantee about them — their values change under it whenever the lock is free.
+func (E *Engine) sharedComp(comp string) bool {
+	if strings.HasPrefix(comp, "map<") {
+		return true
+	}
+	i := strings.Index(comp, "!")
+	if i < 0 {
+		return false
+	}
+	ts := E.CS.Types[comp[:i]]
+	if ts == nil {
+		return false
+	}
+	f := comp[i+1:]
+	if j := strings.IndexAny(f, ".#["); j >= 0 {
+		f = f[:j]
+	}
+	for _, ls := range ts.Locks {
+		for _, p := range ls.Protects {
+			if p == f {
+				return true
+			}
+		}
+	}
+	return false
+}
+
 func (E *Engine) allowedFor(comp string, k, j string) (string, bool) {
 	c := E.cur
+	if E.sharedComp(comp) {
+		return "true", true
+	}
 	if c.spec != nil && E.isPreserved(c.spec, comp) {
 		return "false", false // only objects created in this activation may be written
 	}
